@@ -1002,8 +1002,11 @@ class TestResult(unittest.TestResult):
         if not hasattr(self, "_test_state"):
             # ``startTest`` was not called -- set up extected state
             # (``stopTest`` will be called and will call ``testTearDown``)
-            self.testSetUp()
-            self._test_state = test.__dict__.copy()
+            # -- except for a class or module level skip: no test is
+            # running then and ``stopTest`` will not be called either.
+            if not isinstance(test, unittest.suite._ErrorHolder):
+                self.testSetUp()
+                self._test_state = test.__dict__.copy()
             count = test.countTestCases()
             self.testsRun += count
             self.options.output.start_test(test, self.testsRun, self.count)
